@@ -18,12 +18,13 @@ Call(r) == [params |-> r.params, shapes |-> r.shapes, hasret |-> r.hasret, retto
 \* v.level: "full" (new-style: stage, blamed parameter, printed bindings, body count are all observable)
 \*          "verdict-body" (a permuted declaration: verdict and number of body runs)
 \*          "note" (old-style jaxtyped(tc(f)): verdict class, and the bindings attached as an exception note)
-\*          "verdict" (dataclass / traced: only accepted-or-raised is observable)
+\*          "verdict" (dataclass: only accepted-or-raised is observable)
+\*          "exact" (new-style, traced or eager: accepted / TypeCheckError / AnnotationError, exactly)
 \* a permuted declaration may meet an ordinary mismatch before an unresolvable symbolic axis (or
 \* vice versa): both are rejections, which is all C02 speaks about
 Class(o) == IF o \in {"TCE", "AnnErr"} THEN "rejected" ELSE o
 VariantOK(v, e) ==
-  /\ IF v.level = "full" THEN v.outcome = e.outcome ELSE Class(v.outcome) = Class(e.outcome)
+  /\ IF v.level \in {"full", "exact"} THEN v.outcome = e.outcome ELSE Class(v.outcome) = Class(e.outcome)
   /\ (v.level = "full" /\ e.outcome = "TCE") =>
         /\ v.stage = e.stage
         /\ (e.stage = "params" => v.blamed = e.blamed)
